@@ -24,9 +24,9 @@ type blockSpec struct {
 	HasAlt                 bool
 }
 
-func (s *blockSpec) hl() uint16 { return uint16(s.H)<<8 | uint16(s.L) }
-func (s *blockSpec) de() uint16 { return uint16(s.D)<<8 | uint16(s.E) }
-func (s *blockSpec) bc() uint16 { return uint16(s.B)<<8 | uint16(s.C) }
+func (s *blockSpec) hl() uint16     { return uint16(s.H)<<8 | uint16(s.L) }
+func (s *blockSpec) de() uint16     { return uint16(s.D)<<8 | uint16(s.E) }
+func (s *blockSpec) bc() uint16     { return uint16(s.B)<<8 | uint16(s.C) }
 func (s *blockSpec) setHL(v uint16) { s.H, s.L = uint8(v>>8), uint8(v) }
 func (s *blockSpec) setDE(v uint16) { s.D, s.E = uint8(v>>8), uint8(v) }
 func (s *blockSpec) setBC(v uint16) { s.B, s.C = uint8(v>>8), uint8(v) }
@@ -390,7 +390,7 @@ func runC09(c *Ctx) {
 			}
 			c.R.Violation(fmt.Sprintf("C09/%s/%s", opName[op], sig), map[string]interface{}{
 				"instruction": opName[op], "what": bad, "pre": DumpState(&pre, false), "post": DumpState(&cpu.States, cpu.HALT),
-				"spec": map[string]string{"A": h8(sp.A), "F": h8(sp.F), "BC": h16(sp.bc()), "DE": h16(sp.de()), "HL": h16(sp.hl()), "f_mask": h8(sp.FMask), "alt_F": h8(sp.AltF)},
+				"spec":       map[string]string{"A": h8(sp.A), "F": h8(sp.F), "BC": h16(sp.bc()), "DE": h16(sp.de()), "HL": h16(sp.hl()), "f_mask": h8(sp.FMask), "alt_F": h8(sp.AltF)},
 				"spec_steps": sp.Steps, "emu_steps": nsteps, "spec_finished": sp.Finished, "mem_seed": fillSeed, "cp_mode": cpMode, "io_seed": ioSeed,
 				"emu_ports_head": DumpAccesses(pl), "spec_ports_head": DumpAccesses(sl)})
 		}
